@@ -7,8 +7,22 @@
 (* solves stage by stage; at the end of each phase the Level-A clauses of  *)
 (* LUContract.tla are evaluated on the Level-B result (`cok` must stay     *)
 (* TRUE: Level B => contract).  Finished scenarios print a REPLAY line.    *)
+(*                                                                         *)
+(* Scenario families (field `fam`):                                        *)
+(*   "exh"     every matrix over the entry set, unscaled                   *)
+(*   "graded"  the same matrices D_r A D_c with power-of-two row / column  *)
+(*             scalings (ScalePairs: all orders of near 1, 1/2, 1/4 and far*)
+(*             1, 2^-30, 2^-60 row scales, uniformly tiny, one tiny column *)
+(*             in every position, graded columns, and their products);     *)
+(*             (matrix, scaling) pairs are hash-sampled 1 in GMod*, the    *)
+(*             residue class is chosen by the run's seed (env C16_SEED)    *)
+(*   "lcg"     pseudo-random matrices (a linear congruential generator     *)
+(*             started from the seed) for the sizes that cannot be         *)
+(*             enumerated: complex 3x3 over Gaussian integers with parts   *)
+(*             in -1..1 and real 4x4 over -1..1; each unscaled and with    *)
+(*             hash-sampled scalings                                       *)
 (***************************************************************************)
-EXTENDS LUContract, TLC, Json
+EXTENDS LUContract, Json, IOUtils, FiniteSets, SequencesExt
 
 CONSTANTS RealSizes,     \* subset of 1..3
           E1, E2, E3,    \* entry sets per size
@@ -17,7 +31,10 @@ CONSTANTS RealSizes,     \* subset of 1..3
           CParts,        \* real / imaginary parts of the Gaussian integers
           CRhs1, CRhs2,  \* sequences of complex right-hand sides
           Shapes,        \* BOOLEAN: include the argument-check scenarios
-          SwapMod, RestMod   \* replay sampling of nonsingular matrices with / without a row swap (1 = all)
+          SwapMod, RestMod,  \* replay sampling of nonsingular matrices with / without a row swap (1 = all)
+          GModR2, GModR3, GModC2,   \* graded families: 1 in GMod* of the (matrix, scaling) pairs (real 2x2, 3x3; complex 2x2)
+          KC3, GModC3,       \* number of pseudo-random complex 3x3 matrices; 1 in GModC3 of their scalings
+          KR4, GModR4        \* number of pseudo-random real 4x4 matrices; 1 in GModR4 of their scalings
 
 V4 == <<-1, 0, 1, 2>>
 MC_E5 == -2..2
@@ -28,6 +45,9 @@ MC_Rhs3Quick == << <<1, 2, -1>>, <<0, -1, 2>> >>
 MC_Rhs3Thorough == << <<1, 2, -1>>, <<0, -1, 2>>, <<2, 0, 1>> >>
 MC_CRhs1 == << << <<1, 1>> >>, << <<2, -1>> >>, << <<0, 1>> >> >>
 MC_CRhs2 == << << <<1, 0>>, <<0, 1>> >>, << <<1, -1>>, <<2, 1>> >> >>
+CRhs3 == << << <<1, 0>>, <<0, 1>>, <<1, 1>> >>, << <<1, -1>>, <<2, 1>>, <<0, -1>> >> >>
+Rhs4 == << <<1, 2, -1, 0>>, <<0, -1, 2, 1>> >>
+Seed == IF "C16_SEED" \in DOMAIN IOEnv THEN atoi(IOEnv.C16_SEED) ELSE 1
 MC_CSizes == {1, 2}
 MC_NoSizes == {}
 MC_RealSizes == {1, 2, 3}
@@ -39,34 +59,87 @@ EntrySet(n) == CASE n = 1 -> E1 [] n = 2 -> E2 [] n = 3 -> E3
 RhsOf(n) == CASE n = 1 -> Rhs1 [] n = 2 -> Rhs2 [] n = 3 -> Rhs3
 CRhsOf(n) == CASE n = 1 -> CRhs1 [] n = 2 -> CRhs2
 
-Scen(kind, n, A, AI, bs, rows, cols, irows, icols, iplen) ==
-  [kind |-> kind, n |-> n, A |-> A, AI |-> AI, bs |-> bs, rows |-> rows, cols |-> cols, irows |-> irows, icols |-> icols,
-   iplen |-> iplen]
+\* the matrix handed to the code is A[i][j] * 2^(rs[i] + cs[j]) (complex: AR + i AI likewise), the right-hand side
+\* bs[k][i] * 2^rs[i]
+Scen(fam, kind, n, A, AI, bs, rs, cs, rows, cols, irows, icols, iplen) ==
+  [fam |-> fam, kind |-> kind, n |-> n, A |-> A, AI |-> AI, bs |-> bs, rs |-> rs, cs |-> cs,
+   rows |-> rows, cols |-> cols, irows |-> irows, icols |-> icols, iplen |-> iplen]
+Plain(kind, n, A, AI, bs) == Scen("exh", kind, n, A, AI, bs, ZeroVec(n), ZeroVec(n), n, n, n, n, n)
+
+(* ---- power-of-two scalings ------------------------------------------------ *)
+Perms(n) == {p \in [1..n -> 1..n] : \A i, j \in 1..n : p[i] = p[j] => i = j}
+RowScales(n) == {[i \in 1..n |-> -(p[i] - 1)] : p \in Perms(n)}             \* 1, 1/2, 1/4, .. in every order
+                \cup {[i \in 1..n |-> -30 * (p[i] - 1)] : p \in Perms(n)}   \* 1, 2^-30, 2^-60, .. in every order
+                \cup {[i \in 1..n |-> -60], ZeroVec(n)}
+ColScales(n) == {[j \in 1..n |-> IF j = p THEN -60 ELSE 0] : p \in 1..n}     \* one tiny column: a tiny pivot in position p
+                \cup {[j \in 1..n |-> -(j - 1)], [j \in 1..n |-> -(n - j)], ZeroVec(n)}
+PairSeq(n) == SetToSeq({<<rs, cs>> : rs \in RowScales(n), cs \in ColScales(n)} \ {<<ZeroVec(n), ZeroVec(n)>>})
+Pairs1 == PairSeq(1)
+Pairs2 == PairSeq(2)
+Pairs3 == PairSeq(3)
+Pairs4 == PairSeq(4)
+PairsOf(n) == CASE n = 1 -> Pairs1 [] n = 2 -> Pairs2 [] n = 3 -> Pairs3 [] n = 4 -> Pairs4
+\* indices p of PairsOf(n) with (h + p) % md = Seed % md (every index when md = 1)
+SelIdx(h, n, md) ==
+  LET L == Len(PairsOf(n))
+      p0 == ((Seed % md) + md - (h % md)) % md
+  IN {p0 + t * md : t \in 0..(L \div md)} \cap 1..L
+
+HashR(A, n) == LET RECURSIVE H(_, _)
+                   H(x, acc) == IF x > n * n THEN acc
+                                ELSE H(x + 1, (acc * 7 + A[((x - 1) \div n) + 1][((x - 1) % n) + 1] + 3) % 10007)
+               IN H(1, 0)
+HashC(AR, AI, n) == (HashR(AR, n) * 31 + HashR(AI, n)) % 10007
+
+(* ---- pseudo-random matrices ---------------------------------------------- *)
+LcgNext(x) == (x * 1103 + 12347) % 32749
+RECURSIVE LcgSeq(_, _)
+LcgSeq(x, c) == IF c = 0 THEN <<>> ELSE <<LcgNext(x)>> \o LcgSeq(LcgNext(x), c - 1)
+LcgStart(t, salt) == ((Seed % 997) * 7919 + t * 3571 + salt) % 32749
+LcgReal(t, n) == LET v == LcgSeq(LcgStart(t, 101), n * n)
+                 IN [i \in 1..n |-> [j \in 1..n |-> ((v[(i - 1) * n + j] \div 8) % 3) - 1]]
+LcgImag(t, n) == LET v == LcgSeq(LcgStart(t, 101), n * n)
+                 IN [i \in 1..n |-> [j \in 1..n |-> ((v[(i - 1) * n + j] \div 24) % 3) - 1]]
+
+Graded(fam, kind, n, A, AI, bs, p) ==
+  Scen(fam, kind, n, A, AI, bs, PairsOf(n)[p][1], PairsOf(n)[p][2], n, n, n, n, n)
 
 InitScenario ==
   \/ \E n \in RealSizes \ {3} : \E A \in [1..n -> [1..n -> EntrySet(n)]] :
-       sc = Scen("real", n, A, <<>>, RhsOf(n), n, n, n, n, n)
+       \/ sc = Plain("real", n, A, <<>>, RhsOf(n))
+       \/ \E p \in SelIdx(HashR(A, n), n, IF n = 1 THEN 1 ELSE GModR2) : sc = Graded("graded", "real", n, A, <<>>, RhsOf(n), p)
   \/ /\ 3 \in RealSizes              \* row by row: TLC refuses to build sets of more than 10^6 elements
      /\ \E r1 \in [1..3 -> E3] : \E r2 \in [1..3 -> E3] : \E r3 \in [1..3 -> E3] :
-          sc = Scen("real", 3, <<r1, r2, r3>>, <<>>, Rhs3, 3, 3, 3, 3, 3)
+          sc = Plain("real", 3, <<r1, r2, r3>>, <<>>, Rhs3)
+  \/ /\ 3 \in RealSizes              \* graded 3x3: always over -1..1
+     /\ \E r1 \in [1..3 -> MC_E3] : \E r2 \in [1..3 -> MC_E3] : \E r3 \in [1..3 -> MC_E3] :
+          \E p \in SelIdx(HashR(<<r1, r2, r3>>, 3), 3, GModR3) : sc = Graded("graded", "real", 3, <<r1, r2, r3>>, <<>>, Rhs3, p)
   \/ \E n \in CSizes : \E AR \in [1..n -> [1..n -> CParts]] : \E AI \in [1..n -> [1..n -> CParts]] :
-       sc = Scen("complex", n, AR, AI, CRhsOf(n), n, n, n, n, n)
+       \/ sc = Plain("complex", n, AR, AI, CRhsOf(n))
+       \/ \E p \in SelIdx(HashC(AR, AI, n), n, IF n = 1 THEN 1 ELSE GModC2) :
+            sc = Graded("graded", "complex", n, AR, AI, CRhsOf(n), p)
+  \/ \E t \in 1..KC3 :
+       \/ sc = Scen("lcg", "complex", 3, LcgReal(t, 3), LcgImag(t, 3), CRhs3, ZeroVec(3), ZeroVec(3), 3, 3, 3, 3, 3)
+       \/ \E p \in SelIdx(t, 3, GModC3) : sc = Graded("lcg", "complex", 3, LcgReal(t, 3), LcgImag(t, 3), CRhs3, p)
+  \/ \E t \in 1..KR4 :
+       \/ sc = Scen("lcg", "real", 4, LcgReal(t, 4), <<>>, Rhs4, ZeroVec(4), ZeroVec(4), 4, 4, 4, 4, 4)
+       \/ \E p \in SelIdx(t, 4, GModR4) : sc = Graded("lcg", "real", 4, LcgReal(t, 4), <<>>, Rhs4, p)
   \/ /\ Shapes
      /\ \E rows \in 1..3 : \E cols \in 1..3 : \E iplen \in 0..4 :
-          sc = Scen("shape_real", rows, <<>>, <<>>, <<>>, rows, cols, rows, cols, iplen)
+          sc = Scen("exh", "shape_real", rows, <<>>, <<>>, <<>>, <<>>, <<>>, rows, cols, rows, cols, iplen)
   \/ /\ Shapes
      /\ \E rows \in 1..2 : \E cols \in 1..2 : \E irows \in 1..2 : \E icols \in 1..2 : \E iplen \in 1..3 :
-          sc = Scen("shape_complex", rows, <<>>, <<>>, <<>>, rows, cols, irows, icols, iplen)
+          sc = Scen("exh", "shape_complex", rows, <<>>, <<>>, <<>>, <<>>, <<>>, rows, cols, irows, icols, iplen)
 
 IsShape == sc.kind \in {"shape_real", "shape_complex"}
 IsReal == sc.kind = "real"
-NoDec == [cls |-> "run", a |-> <<>>, ip |-> <<>>, k |-> 0, dy |-> TRUE]
+NoDec == [cls |-> "run", a |-> <<>>, ip |-> <<>>, k |-> 0, dy |-> TRUE, re |-> <<>>, lex |-> <<>>]
 
 Init ==
   /\ InitScenario
   /\ pc = "dec"
-  /\ d = IF sc.kind = "real" THEN DecInit(RatMat(sc.A), sc.n)
-         ELSE IF sc.kind = "complex" THEN DecInit(CMat(sc.A, sc.AI), sc.n) ELSE NoDec
+  /\ d = IF sc.kind = "real" THEN DecInit(RatMat(sc.A), sc.n, sc.rs)
+         ELSE IF sc.kind = "complex" THEN DecInit(CMat(sc.A, sc.AI), sc.n, sc.rs) ELSE NoDec
   /\ ss = <<>>
   /\ cok = TRUE
 
@@ -86,18 +159,20 @@ ShapeAct ==
 \* one stage of the factorisation
 DecAct ==
   /\ pc = "dec" /\ ~IsShape
-  /\ LET d1 == IF IsReal THEN DecStep(d, sc.n) ELSE CDecStep(d, sc.n) IN
-       /\ d' = d1
-       /\ IF d1.cls = "run" THEN pc' = "dec" /\ UNCHANGED <<ss, cok>>
-          ELSE /\ cok' = (cok /\ C16_Class(Singular, TRUE, d1.cls)      \* exact arithmetic: the strict form of the clause
-                              /\ C16_Multipliers(d1.cls, IF IsReal THEN MultipliersLeOne(d1.a, sc.n)
-                                                                    ELSE CMultipliersLeOne(d1.a, sc.n)))
-               /\ IF d1.cls = "ok"
-                  THEN /\ pc' = "sol"
-                       /\ ss' = [k \in 1..Len(sc.bs) |->
-                                   SolInit([i \in 1..sc.n |-> IF IsReal THEN RInt(sc.bs[k][i])
-                                                                        ELSE CInt(sc.bs[k][i][1], sc.bs[k][i][2])])]
-                  ELSE pc' = "done" /\ UNCHANGED ss
+  \* (d' instead of a LET: TLC evaluates a LET definition again in every conjunct of an action that uses it)
+  /\ d' = IF IsReal THEN DecStep(d, sc.n) ELSE CDecStep(d, sc.n)
+  /\ IF d'.cls = "run" THEN pc' = "dec" /\ UNCHANGED <<ss, cok>>
+     ELSE /\ cok' = (cok /\ C16_Class(Singular, TRUE, d'.cls)      \* exact arithmetic: the strict form of the clause
+                         /\ C16_Multipliers(d'.cls, IF IsReal THEN MultipliersLeOne(d', sc.n)
+                                                               ELSE CMultipliersBounded(d', sc.n))
+                         /\ C16_PivotMax(IF IsReal THEN RealBadPivotStage(sc.A, sc.n, sc.rs, d'.ip, d'.cls)
+                                         ELSE ComplexBadPivotStage(sc.A, sc.AI, sc.n, sc.rs, d'.ip, d'.cls)))
+          /\ IF d'.cls = "ok"
+             THEN /\ pc' = "sol"
+                  /\ ss' = [k \in 1..Len(sc.bs) |->
+                              SolInit([i \in 1..sc.n |-> IF IsReal THEN RInt(sc.bs[k][i])
+                                                                   ELSE CInt(sc.bs[k][i][1], sc.bs[k][i][2])])]
+             ELSE pc' = "done" /\ UNCHANGED ss
   /\ UNCHANGED sc
 
 \* a whole phase (forward sweep, or back substitution) of one solve: the per-column steps of LU.tla are run until the
@@ -111,14 +186,12 @@ SolPhase(a, n, ip, s, ph) ==
 \* (for n = 1 it reads none).
 SolAct ==
   /\ pc = "sol"
-  /\ LET ipUsed == SubSeq(d.ip, 1, sc.n - 1)
-         s1 == [k \in 1..Len(ss) |-> SolPhase(d.a, sc.n, ipUsed, ss[k], ss[k].ph)]
-     IN /\ ss' = s1
-        /\ IF \A k \in 1..Len(s1) : s1[k].ph = "done"
-           THEN /\ pc' = "done"
-                /\ cok' = (cok /\ \A k \in 1..Len(s1) :
-                                    C16_Solution(Singular, TRUE, Want(k), FALSE, s1[k].b, TRUE, Want(k)))
-           ELSE pc' = "sol" /\ UNCHANGED cok
+  /\ ss' = [k \in 1..Len(ss) |-> SolPhase(d.a, sc.n, SubSeq(d.ip, 1, sc.n - 1), ss[k], ss[k].ph)]
+  /\ IF \A k \in 1..Len(ss') : ss'[k].ph = "done"
+     THEN /\ pc' = "done"
+          /\ cok' = (cok /\ \A k \in 1..Len(ss') :
+                              LET w == Want(k) IN C16_Solution(Singular, TRUE, w, FALSE, ss'[k].b, TRUE, w))
+     ELSE pc' = "sol" /\ UNCHANGED cok
   /\ UNCHANGED <<sc, d>>
 
 Next == ShapeAct \/ DecAct \/ SolAct
@@ -130,23 +203,24 @@ TypeOK == pc \in {"dec", "sol", "done"} /\ d.cls \in {"run", "ok", "singular", "
 
 (* ---- replay emission ----------------------------------------------------- *)
 HasSwap == \E k \in 1..Len(d.ip) : d.ip[k] # UNSET /\ d.ip[k] # k - 1
-Hash == LET n == sc.n IN
-        IF sc.kind = "real"
-        THEN LET RECURSIVE H(_, _)
-                 H(x, acc) == IF x > n * n THEN acc
-                              ELSE H(x + 1, (acc * 7 + sc.A[((x - 1) \div n) + 1][((x - 1) % n) + 1] + 3) % 10007)
-             IN H(1, 0)
-        ELSE 0
+Hash == IF sc.kind = "real" THEN HashR(sc.A, sc.n) ELSE 0
 Sampled ==
-  \/ IsShape \/ sc.kind = "complex" \/ sc.n < 3 \/ d.cls = "singular"
+  \/ IsShape \/ sc.kind = "complex" \/ sc.n < 3 \/ d.cls = "singular" \/ sc.fam # "exh"
   \/ HasSwap /\ Hash % SwapMod = 0
   \/ ~HasSwap /\ Hash % RestMod = 0
 
 Emit ==
   (pc = "done" /\ Sampled) =>
     PrintT(<<"REPLAY", ToJson([sc |-> sc,
-        expect |-> [cls |-> d.cls, dec_dyadic |-> d.dy, lu |-> d.a, ip |-> d.ip, swap |-> HasSwap,
+        expect |-> [cls |-> d.cls, dec_dyadic |-> d.dy, ip |-> d.ip, swap |-> HasSwap,
+                    \* every expected number is a triple <<num, den, e>>: the rational times 2^e
+                    lu |-> IF IsShape THEN <<>>
+                           ELSE LET ex == FacExp(d, sc.cs, sc.n)
+                                IN [i \in 1..sc.n |-> [j \in 1..sc.n |->
+                                      IF IsReal THEN R3(d.a[i][j], ex[i][j]) ELSE C3(d.a[i][j], ex[i][j])]],
                     singular |-> IF IsShape THEN FALSE ELSE Singular,
                     xs |-> [k \in 1..Len(ss) |-> [dyadic |-> d.dy /\ ss[k].dy, x |-> ss[k].b]],
-                    xe |-> IF IsShape \/ d.cls # "ok" THEN <<>> ELSE [k \in 1..Len(sc.bs) |-> Want(k)]]])>>)
+                    xe |-> IF IsShape \/ d.cls # "ok" THEN <<>>
+                           ELSE [k \in 1..Len(sc.bs) |-> [j \in 1..sc.n |->
+                                   IF IsReal THEN R3(Want(k)[j], -sc.cs[j]) ELSE C3(Want(k)[j], -sc.cs[j])]]]])>>)
 =============================================================================
